@@ -216,6 +216,12 @@ def run(chk):
         gr = [c for c in walk(w["body"]) if c.get("k") == "CXXOperatorCallExpr" and c.get("op") == "()" and txt(strip(c["c"][1])) == "grad"]
         chk.ob("C19-D2.cap", g.name + "(const step)", "gradient refreshed after each step", len(gr) == 1, g.loc(w))
 
+    from rules import reentrant
+    chk.rule("C19-D5.reentrant", "the working storage of every GradientDescent variant is local to the call (no non-const variable with static or thread storage duration is declared or written): "
+                                 "a callback that runs GradientDescent for an inner problem cannot overwrite the trial point, the gradients or the previous iterate of the outer call")
+    nre = reentrant.reentrant_rule(chk, db, "C19-D5.reentrant", ("TasOptimization::GradientDescent",), ["DREAM/Optimization/tsgGradientDescent.cpp", "DREAM/Optimization/tsgGradientDescent.hpp"])
+    chk.floor("C19-D5.reentrant", nre, 3, "GradientDescent variants")
+
     return ("Static rule discharge over the two GradientDescent variants: a two-state typestate of state.x propagated over the CFG (join = displaced) decides that every return "
             "leaves the accepted iterate in the state; dominance/post-dominance rules tie each objective evaluation to a cap test and one count in the same iteration; "
             "reachability within one line-search iteration decides that the descent test uses the stepsize of the trial step. Not decided: the objective values themselves "
